@@ -241,7 +241,7 @@ def decorate(rng, x, plain=False):
         elif r < 0.1:
             p.mark = x.state                                   # redundant mark
         p.note = rng.choice(PNOTES)
-        if p.cost is not None and rng.random() < 0.25:
+        if p.cost is not None and rng.random() < 0.25 and not getattr(x, 'keep_cost_marks', False):
             p.cvirt = True
         if p.lot is not None and p.cost is not None and rng.random() < 0.4:
             p.lotdate = rng.choice(LOT_DATES)
@@ -333,7 +333,48 @@ def gen_layout(rng, st):
     return XXact(ps)
 
 
+def gen_lot_cost(rng, st):
+    """a posting with BOTH a lot price {P} and a written cost: per-unit or total, equal to / above / below
+    lot price x quantity, a sale or a purchase, plain or (virtual) cost; finalize rewrites the posting's cost to the
+    lot's basis when the two differ, print must still show the cost as written"""
+    sym = rng.choice(['AAA', 'BBB', 'CCC'])
+    dec = rng.choice([0, 0, X.COMMS[sym][1]])
+    units = F(rng.randrange(1, 500), 10 ** dec) * rng.choice([1, 1, -1, -1, -1])
+    y = rng.choice(['$', '$', 'EUR'])
+    lotp = F(rng.randrange(100, 99999), 100)
+    delta = F(rng.choice([0, 0, 1, -1, 25, -40, 1000, -999, 12345]), rng.choice([1, 100, 100, 1000]))
+    if rng.random() < 0.5:
+        price = lotp + delta                                    # per unit
+        if price <= 0:
+            price = lotp
+        pd = 2 if price * 100 == int(price * 100) else 3
+        cost = ('u', X.Amt(price, pd, y))
+    else:
+        total = abs(lotp * units) + delta * rng.choice([1, 10])  # total
+        if total <= 0:
+            total = abs(lotp * units)
+        td = 2
+        while total * 10 ** td != int(total * 10 ** td):
+            td += 1
+        cost = ('t', X.Amt(total, td, y))
+    p = XPost(rng.choice(['Assets:Broker:X', 'Assets:Broker:Y']), 'R', X.Amt(units, dec, sym), cost, X.Amt(lotp, 2, y),
+              cvirt=rng.random() < 0.3)
+    if rng.random() < 0.3:
+        p.lotdate = rng.choice(['2019/01/01', '2018/12/31'])
+    if rng.random() < 0.2:
+        p.lottag = rng.choice(['lot note', 'L1'])
+    ps = [p, XPost(rng.choice(['Assets:Bank', 'Assets:Cash']), 'R', None)]
+    if rng.random() < 0.3:
+        a = X.Amt.rand(rng, y, 2)
+        ps.insert(rng.randrange(3), XPost('Income:Job', 'R', a))
+    x = XXact(ps)
+    x.keep_cost_marks = True
+    return x
+
+
 def gen_xact(rng, st):
+    if rng.random() < 0.1:
+        return relayout(rng, decorate(rng, gen_layout(rng, st)))
     r = rng.random()
     if r < 0.30:
         x = two_post(rng, st)
@@ -345,17 +386,16 @@ def gen_xact(rng, st):
         x = upgrade(X.gen_half_unit(rng))
     elif r < 0.74:
         x = upgrade(X.gen_two_commodity(rng))
-    elif r < 0.84:
+    elif r < 0.79:
         x = upgrade(X.gen_lot(rng))
-    elif r < 0.93:
+    elif r < 0.86:
+        x = gen_lot_cost(rng, st)
+    elif r < 0.935:
         x = gen_assign(rng, st)
     elif r < 0.94:
         x = gen_zero_cost(rng, st)
     else:
         x = upgrade(X.gen_balanced(rng, ncomm=3))
-    if rng.random() < 0.1:
-        x = gen_layout(rng, st)
-        return relayout(rng, decorate(rng, x))
     x = decorate(rng, x)
     if rng.random() < 0.3:
         x = relayout(rng, x)
@@ -576,6 +616,29 @@ def differs_by_padding_only(t1, t2):
     return len(l1) == len(l2) and all(a == b or (a.startswith('    ') and unpad(a) == unpad(b)) for a, b in zip(l1, l2))
 
 
+def parse_prices(out):
+    """`prices` output -> sorted [(date, commodity, price commodity, Fraction, decimals shown)] or None"""
+    res = []
+    for l in out.decode('utf-8', 'replace').split('\n'):
+        if not l.strip():
+            continue
+        m = re.match(r'(\S+)\s+(\S+)\s+(.*\S)\s*$', l)
+        if not m:
+            return None
+        try:
+            a = parse_amount_text(m.group(3))
+        except ValueError:
+            return None
+        res.append((m.group(1), m.group(2), a[0], a[1], a[2]))
+    return sorted(res)
+
+
+def same_prices(h1, h2):
+    """equal dates and commodities, and the numbers agree to the digits both sides show (a price is a quotient and
+    is shown with as many digits as the operands happened to carry)"""
+    return len(h1) == len(h2) and all(a[:3] == b[:3] and abs(a[3] - b[3]) <= F(1, 10 ** min(a[4], b[4])) for a, b in zip(h1, h2))
+
+
 def parse_bal(out):
     """bal --flat rows -> {(account, base commodity): Fraction} without zero entries (lots merged)"""
     tot = {}
@@ -744,6 +807,33 @@ def run_one(ctx, res, j, xs, text, path, out_reg, model, layout_cases, idem_case
         res.disagreements.append(dict(name='C06/print-error', case=text, impl='print succeeds', model=mm[model_perr[0]][0]))
         return
     toks = tokenize_print(Ptext)
+    # ---- oracle 0b (cost details): the cost text of a printed posting denotes the cost AS WRITTEN - same kind of mark
+    # (a per-unit cost on a zero amount may only be shown as the total, which is then zero), same (virtual) marking,
+    # exactly the written number and commodity - whatever finalize made of the posting's cost (lot basis, gain/loss)
+    for i, x in enumerate(xs):
+        tl = toks.get(i)
+        if tl is None or len(tl) != len(x.posts):
+            continue
+        for k, (t, p) in enumerate(zip(tl, x.posts)):
+            shown = t.split('|')[5]
+            if p.cost is None or p.amt is None:
+                want = '-'
+            else:
+                kind, c = p.cost
+                val = c.value
+                if kind == 'u' and p.amt.value == 0:
+                    kind, val = 't', F(0)
+                want = '%s%s %s:%s/%s' % (kind, 'v' if p.cvirt else '', c.sym, val.numerator, val.denominator)
+            got = shown if shown == '-' else ':'.join(shown.split(':')[:-1])
+            if got != want:
+                res.count('print-cost-differs')
+                res.violations.append(dict(key='print-cost:written-cost-not-shown' + (':lot-priced-posting' if p.lot is not None else ''),
+                                           desc='x%d %s: the cost was written as %r, print shows %r' % (i, p.acct, want, got),
+                                           case=dict(journal=text, printed=Ptext, xact=i), observed=got, required=want))
+            elif p.cost is not None and p.lot is not None:
+                basis = abs(p.lot.value * p.amt.value)
+                given = abs(p.cost[1].value * p.amt.value) if p.cost[0] == 'u' else p.cost[1].value
+                res.count('lot+cost:%s%s:%s' % (p.cost[0], '-virtual' if p.cvirt else '', 'cost=basis' if given == basis else 'cost!=basis'))
     # ---- oracle 0 (journal syntax): in every printed posting line the account name is followed by nothing, by two
     # blanks or by a tab - with less the reader takes the amount for a part of the account name.  The same pass
     # collects the raw layout of the line for the correspondence with Model/Print.v sep_blanks.
@@ -853,6 +943,16 @@ def run_one(ctx, res, j, xs, text, path, out_reg, model, layout_cases, idem_case
                                                     'reread-rows:cost:zero-amount-commodity-lost' if any(r['amt'] and r['amt'][1] == 0 for r in a) else 'reread-rows:cost'),
                                                    desc='x%d %s: %s was %s, re-read %s' % (i, ra['acct'], fld, show_kq(va), show_kq(vb)),
                                                    case=dict(journal=text, printed=Ptext, xact=i), observed=show_kq(vb), required=show_kq(va)))
+        # ---- oracle 1b: the prices ledger records from the written costs are the same after the round trip
+        sp1, pr1, pe1 = lib.run_ledger(['-f', path, 'prices'] + NOW)
+        sp2, pr2, pe2 = lib.run_ledger(['-f', ppath, 'prices'] + NOW)
+        h1, h2 = parse_prices(pr1), parse_prices(pr2)
+        if sp1 == 0 and h1 is not None and (sp2 != 0 or h2 is None or not same_prices(h1, h2)):
+            zero = any(p.amt is not None and p.amt.value == 0 for x in xs for p in x.posts)
+            d = [(a, b) for a, b in zip(h1, h2 or []) if not same_prices([a], [b])][:3] or [(len(h1), len(h2 or []))]
+            res.violations.append(dict(key=('reread-rows:cost:zero-amount-commodity-lost' if zero else 'reread-prices'),
+                                       desc='the price history differs after print and re-read: %s' % d,
+                                       case=dict(journal=text, printed=Ptext), observed=str(d), required='the same prices'))
         # ---- oracle 2: print is idempotent, byte for byte
         if st3 != 0 or P2 != P:
             only_padding = st3 == 0 and differs_by_padding_only(Ptext, P2.decode('utf-8', 'replace'))
